@@ -48,6 +48,9 @@ func c10Pool() []string {
 		/* 18 */ "[FORMAT \"WCOFF\"]\n[BITS 32]\n\tGLOBAL _long_name_alpha, _long_name_beta, _short\n[SECTION .text]\n_long_name_alpha:\n\tRET\n_long_name_beta:\n\tNOP\n\tRET\n_short:\n\tHLT\n",
 		/* 19 */ "[FORMAT \"WCOFF\"]\n[BITS 32]\n\tGLOBAL _another_long_one, _long_name_beta, _long_name_alpha\n[SECTION .text]\n_another_long_one:\n\tRET\n_long_name_beta:\n\tRET\n_long_name_alpha:\n\tHLT\n",
 		/* 14 */ "SECT EQU 18\nHEADS EQU SECT/9\n\tMOV AX,SECT*512\n\tMOV CX,SECT\n\tMOV AL,[BX+SECT]\n\tDB SECT,HEADS\n\tMOV DX,[SI+HEADS+1]\n\tMOV BX,[BP-2+SI]\n",
+		// 20/21: the same instruction lines with labels as memory addresses, the labels at different addresses
+		/* 20 */ "\tORG 0x7c00\n\tMOV AX,[counter]\n\tADD WORD [counter],1\n\tCMP BYTE [flag],0\n\tMOV BX,counter\n\tHLT\ncounter:\n\tDW 0\nflag:\n\tDB 0\n",
+		/* 21 */ "\tORG 0x7c00\n\tNOP\n\tMOV CX,0x1234\n\tMOV AX,[counter]\n\tADD WORD [counter],1\n\tCMP BYTE [flag],0\n\tMOV BX,counter\n\tHLT\nflag:\n\tDB 0,0,0\ncounter:\n\tDW 0\n",
 	}
 }
 
@@ -312,7 +315,7 @@ func c10Custom(r *core.Run, tier string) {
 	}
 	r.AddSample(map[string]any{"history": []string{ops[0].String(), ops[len(ops)-1].String()}, "programs": len(pool)})
 	r.AddSample(map[string]any{"program_2": pool[2]})
-	r.AddCustom("histories", "operations = assemble(p, destination state) for 20 programs x 3 destination states + reassemble-the-same-tree x 3; explored: every history of length 1 and every pair (quick: over a 15-operation subset) from a fresh process (breadth first, successor = replay on a fresh worker), thorough: every ordered triple as a window of a de Bruijn sequence on live workers; invariant on every transition: output and diagnostics equal those of a fresh process, leftover destination never shows, process-global tables and the parsed tree unchanged",
+	r.AddCustom("histories", fmt.Sprintf("operations = assemble(p, destination state) for %d programs x 3 destination states", len(pool))+" + reassemble-the-same-tree x 3; explored: every history of length 1 and every pair (quick: over a 15-operation subset) from a fresh process (breadth first, successor = replay on a fresh worker), thorough: every ordered triple as a window of a de Bruijn sequence on live workers; invariant on every transition: output and diagnostics equal those of a fresh process, leftover destination never shows, process-global tables and the parsed tree unchanged",
 		map[string]any{"programs": len(pool), "operations": len(ops), "pairs_over": len(sub)}, int64(len(states))+int64(bfsHist), transitions, executed, int64(len(pool)), len(states), true, time.Since(t0).Seconds())
 }
 
